@@ -957,6 +957,11 @@ var wellKnownV6 = [][]byte{
 }
 
 func genIP(rng *rand.Rand) []byte {
+	if rng.IntN(30) == 0 {
+		// the IPv4-mapped prefix followed by 0..20 bytes (16 of them give a 28-byte slice that is
+		// "an IPv6 address behind the prefix")
+		return append(append([]byte{}, mappedPrefix...), randBytes(rng, pick(rng, 0, 1, 3, 4, 5, 8, 12, 15, 16, 16, 17, 20))...)
+	}
 	if rng.IntN(14) == 0 {
 		// a well-known prefix, then zeros, then an IPv4-looking tail
 		b := make([]byte, 16)
